@@ -168,6 +168,9 @@ type Run struct {
 	Pkg    string // import path: scratch/<name>
 	Design *model.Design
 	Prog   *dsltree.Program
+	// Cwd is the working directory of the generator process ("" = Dir, the
+	// output directory). The output directory is always passed as an absolute path.
+	Cwd string
 }
 
 // Place writes the design (model JSON, program JSON, printed DSL source) into a fresh directory.
@@ -202,6 +205,9 @@ func (s *Session) Eval(r *Run, cmd string, timeout time.Duration) *Verdict {
 	defer cancel()
 	c := exec.CommandContext(ctx, s.GoaEval, "-design", filepath.Join(r.Dir, "program.json"), "-out", r.Dir, "-cmd", cmd)
 	c.Dir = r.Dir
+	if r.Cwd != "" {
+		c.Dir = r.Cwd
+	}
 	path := os.Getenv("PATH")
 	env := GoEnv()
 	if cmd != "eval" && (r.Design == nil || hasGRPC(r.Design)) {
